@@ -59,18 +59,26 @@ def ann(container, target_expr, quoted_inner):
         return f"Dict[str, {t}]"
     if container == "union":
         return f"Union[int, {t}]"
+    if container == "list2":
+        return f"List[List[{t}]]"       # the reference sits two generic levels deep
+    if container == "dictlist":
+        return f"Dict[str, List[{t}]]"
     return t
 
 
 def default_for(container):
     return {"opt": " = None", "list": " = Field(default_factory=list)", "dict": " = Field(default_factory=dict)",
-            "union": " = 0", "req": ""}[container]
+            "union": " = 0", "req": "", "list2": " = Field(default_factory=list)", "dictlist": " = Field(default_factory=dict)"}[container]
 
 
 def class_source(prog, ci, S, direct=False):
     c = prog["classes"][ci]
     name = f"C{ci}{S}"
     L = [f"class {name}({'Schema' if c.get('base', 'schema') == 'schema' else 'DataClass'}):"]
+    if c.get("addn"):
+        # what the unknown keys have to conform to is given by reference too
+        tq = f"C{c['addn']['to']}{S}"
+        L.append(f"    __options__ = Options(addition={ann(c['addn']['cont'], tq if direct else repr(tq), not direct)})")
     # required fields first is not needed for data classes
     L.append("    v: int = 0")
     for fi, r in enumerate(c["refs"]):
@@ -199,7 +207,7 @@ def model_class(prog, ci, data, depth=0):
         if key not in data:
             if cont == "req":
                 raise Reject()
-            dv = {"opt": None, "list": ["list", []], "dict": ["dict", []], "union": 0}[cont]
+            dv = {"opt": None, "list": ["list", []], "dict": ["dict", []], "union": 0, "list2": ["list", []], "dictlist": ["dict", []]}[cont]
             out.append([key, dv])
             continue
         x = data[key]
@@ -220,6 +228,29 @@ def model_class(prog, ci, data, depth=0):
                 out.append([key, model_class(prog, r["to"], x, depth + 1)])
             else:
                 out.append([key, _to_int(x)])
+        elif cont == "list2":
+            if not isinstance(x, list) or not all(isinstance(y, list) for y in x):
+                raise Reject()
+            out.append([key, ["list", [["list", [model_class(prog, r["to"], z, depth + 1) for z in y]] for y in x]]])
+        elif cont == "dictlist":
+            if not isinstance(x, dict) or not all(isinstance(y, list) for y in x.values()):
+                raise Reject()
+            out.append([key, ["dict", [[k, ["list", [model_class(prog, r["to"], z, depth + 1) for z in y]]] for k, y in x.items()]]])
+    if c.get("addn"):
+        ac, at = c["addn"]["cont"], c["addn"]["to"]
+        for key, x in data.items():
+            if not key.startswith("x"):
+                continue
+            if ac == "opt":
+                out.append([key, None if x is None else model_class(prog, at, x, depth + 1)])
+            elif ac == "list":
+                if not isinstance(x, list):
+                    raise Reject()
+                out.append([key, ["list", [model_class(prog, at, y, depth + 1) for y in x]]])
+            else:
+                if not isinstance(x, dict):
+                    raise Reject()
+                out.append([key, ["dict", [[k, model_class(prog, at, y, depth + 1)] for k, y in x.items()]]])
     if c.get("lim"):
         lv = _to_int(data.get("lim", 1))
         if not (0 < lv < 10):
@@ -300,6 +331,13 @@ def gen_input(rng, prog, ci, depth, bad):
             d[key] = [sub() for _ in range(rng.choice([0, 1, 2]))]
         elif cont == "dict":
             d[key] = {"k%d" % j: sub() for j in range(rng.choice([0, 1, 2]))}
+        elif cont in ("list2", "dictlist"):
+            # (two container levels per class level: keep the whole value within the depth the canonical dump shows)
+            sub2 = lambda: gen_input(rng, prog, r["to"], depth + 2, bad)  # noqa
+            if cont == "list2":
+                d[key] = [[sub2() for _ in range(rng.choice([0, 1, 2]))] for _ in range(rng.choice([1, 1, 2]))]
+            else:
+                d[key] = {"k%d" % j: [sub2() for _ in range(rng.choice([1, 1, 2]))] for j in range(rng.choice([1, 1, 2]))}
         else:
             if rng.random() < 0.4:
                 d[key] = rng.choice([5, "6"])
@@ -307,6 +345,11 @@ def gen_input(rng, prog, ci, depth, bad):
                 x = sub()
                 x.setdefault("v", 1)    # an empty mapping is also a spelling of 0 for the int branch: keep the branches apart
                 d[key] = x
+    if c.get("addn") and depth < 3:
+        for j in range(rng.choice([0, 1, 1, 2])):
+            one = lambda: dict(gen_input(rng, prog, c["addn"]["to"], depth + 2, bad))  # noqa
+            ac = c["addn"]["cont"]
+            d["x%d" % j] = one() if ac == "opt" else [one() for _ in range(rng.choice([1, 2]))] if ac == "list" else {"q": one()}
     if c.get("lim") and rng.random() < 0.5:
         d["lim"] = rng.choice([2, "3", 9, 10, 0])
     if c.get("lim2") and rng.random() < 0.6:
@@ -319,6 +362,7 @@ def gen_input(rng, prog, ci, depth, bad):
 def is_cyclic(prog):
     n = len(prog["classes"])
     adj = {i: {r["to"] for r in prog["classes"][i]["refs"]} | ({prog["classes"][i]["pprop"]} if prog["classes"][i].get("pprop") is not None else set())
+           | ({prog["classes"][i]["addn"]["to"]} if prog["classes"][i].get("addn") else set())
            for i in range(n)}
     seen, stack = set(), set()
 
@@ -345,6 +389,8 @@ def topo(prog):
             visit(r["to"])
         if prog["classes"][u].get("pprop") is not None:
             visit(prog["classes"][u]["pprop"])
+        if prog["classes"][u].get("addn"):
+            visit(prog["classes"][u]["addn"]["to"])
         order.append(u)
     for i in range(n):
         visit(i)
@@ -374,7 +420,7 @@ def generate(rng, tier):
         refs = []
         for _fi in range(rng.choice([1, 1, 2, 2, 3]) if not (dag and ci == n - 1) else 0):
             to = rng.randrange(n) if not dag else rng.randrange(ci + 1, n)
-            cont = rng.choice(["opt", "opt", "list", "list", "dict", "union", "req"])
+            cont = rng.choice(["opt", "opt", "list", "list", "dict", "union", "req", "list2", "dictlist"])
             if to == ci and cont == "req":
                 cont = "opt"
             refs.append({"to": to, "cont": cont, "spell": None})
@@ -423,6 +469,11 @@ def generate(rng, tier):
     for c_ in classes:
         if c_.get("lim") and rng.random() < 0.6:
             c_["lim2"] = True
+    for ci in range(n):
+        # (acyclic programs: only forward in the topological sense, so that the direct twin can be written)
+        cands = [t for t in no_req if not dag or t > ci]
+        if classes[ci]["base"] == "schema" and cands and rng.random() < 0.15 and not future:
+            classes[ci]["addn"] = {"to": rng.choice(cands), "cont": rng.choice(["list", "opt", "dict"])}
     for ci in range(n):
         if classes[ci]["base"] == "schema" and no_req and rng.random() < 0.2 and not future:
             classes[ci]["pprop"] = rng.choice(no_req)
@@ -506,6 +557,8 @@ def _needs(prog, ci, seen=None):
         _needs(prog, r["to"], seen)
     if prog["classes"][ci].get("pprop") is not None:
         _needs(prog, prog["classes"][ci]["pprop"], seen)
+    if prog["classes"][ci].get("addn"):
+        _needs(prog, prog["classes"][ci]["addn"]["to"], seen)
     return seen
 
 
